@@ -4,7 +4,8 @@
 set -e
 B=$(mktemp -d /verif/build/baseline.XXXXXX)
 trap 'rm -rf "$B"' EXIT
-cmake -G Ninja -S /repo/tests -B "$B" -DCMAKE_BUILD_TYPE=RelWithDebInfo >/dev/null
+SRC=${1:-/repo}
+cmake -G Ninja -S "$SRC/tests" -B "$B" -DCMAKE_BUILD_TYPE=RelWithDebInfo >/dev/null
 cmake --build "$B" --target unittest -j16 >/dev/null
 ctest --test-dir "$B" -j8 --timeout 900 --output-on-failure
 "$B"/unittest/unittest -r compact | tail -3
